@@ -5,6 +5,15 @@ package main
 import (
 	"bufio"
 	"io"
+	"net"
 )
 
 func bufioReader(r io.Reader) *bufio.Reader { return bufio.NewReader(r) }
+
+func netListen() (net.Listener, error) { return net.Listen("tcp", "127.0.0.1:0") }
+
+func setLinger0(c net.Conn) {
+	if tc, ok := c.(*net.TCPConn); ok {
+		tc.SetLinger(0)
+	}
+}
